@@ -1736,6 +1736,7 @@ package gedcom
 // (FamilyNode.AddChild: the same three clauses sit on its C14 contract above.)
 //@ func FamilyNode.addChild
 //@   props C13
+//@   inline
 //@   ghost nAdd int = 0
 //@   ghost nReset int = 0
 //@   oncall SimpleNode.AddNode do nAdd = nAdd + 1
@@ -1744,6 +1745,7 @@ package gedcom
 //@   ensures individuals-forget: nAdd == 1 && nReset == 1
 //@ func FamilyNode.SetHusbandPointer
 //@   props C13
+//@   inline
 //@   ghost nAdd int = 0
 //@   ghost nReset int = 0
 //@   oncall SimpleNode.AddNode do nAdd = nAdd + 1
@@ -1753,6 +1755,7 @@ package gedcom
 //@   ensures view-forgotten: !node.cachedHusband
 //@ func FamilyNode.SetWifePointer
 //@   props C13
+//@   inline
 //@   ghost nAdd int = 0
 //@   ghost nReset int = 0
 //@   oncall SimpleNode.AddNode do nAdd = nAdd + 1
@@ -1791,6 +1794,7 @@ package gedcom
 // family's (the code's own "easy option").
 //@ func Document.AddIndividual
 //@   props C13
+//@   inline
 //@   ghost nReset int = 0
 //@   ghost nAdd int = 0
 //@   oncall Document.AddNode do nAdd = nAdd + 1
@@ -1800,6 +1804,7 @@ package gedcom
 //@   loop 1 nobreak
 //@ func Document.AddFamily
 //@   props C13
+//@   inline
 //@   ghost nReset int = 0
 //@   ghost nAdd int = 0
 //@   oncall Document.AddNode do nAdd = nAdd + 1
